@@ -1526,7 +1526,7 @@ func validID(id string) bool { return len(id) == 64 && validHexString(id) }
 
 func validPubkey(pubkey string) bool { return len(pubkey) == 64 && validHexString(pubkey) }
 
-func validKind(kind int64) bool { return 0 <= kind || kind <= 65535 }
+func validKind(kind int64) bool { return 0 <= kind && kind <= 65535 }
 
 func validTag(tag Tag) bool { return len(tag) >= 1 && tag[0] != "" }
 
